@@ -141,6 +141,7 @@ func RunC11(c *core.Ctx) {
 		w.pr.Barrier(5 * time.Second)
 		worlds[v] = w
 	}
+	parents := map[string]string{}
 	var n, expected, ok200, known int64
 	check := func(js string) {
 		var cs kgCase
@@ -150,7 +151,13 @@ func RunC11(c *core.Ctx) {
 		n++
 		v := 1 + int((n+c.Seed)%3)
 		w := worlds[v]
-		pk := parentKey(w.b, cs.Parent, uint16(n))
+		// the same parent key string is reused for every case of its shape (a broker sees the same keys again and again)
+		shape := fmt.Sprintf("%d|%s|%v|%s|%v", v, cs.Parent.Kind, sorted(cs.Parent.Perms), cs.Parent.Target.String(), cs.Parent.Expired)
+		pk, seen := parents[shape]
+		if !seen {
+			pk = parentKey(w.b, cs.Parent, uint16(len(parents)+1))
+			parents[shape] = pk
+		}
 		chName := cs.Req.Ch.String()
 		if cs.Req.Long {
 			chName = strings.Repeat("x/", 24)
@@ -255,6 +262,14 @@ func RunC11(c *core.Ctx) {
 				} else {
 					fail(fmt.Sprintf("derived key was requested with a negative ttl (%s) but is valid until %v", cs.Req.TTL, exp))
 				}
+				return
+			}
+		}
+		// the parent key itself is unchanged by having been used for a link extension: it still authorizes the extension
+		if cs.Want.Sub {
+			ch := security.ParseChannel([]byte(pk + "/" + Chan{W: cs.Req.Ch.W}.String()))
+			if _, _, still := w.b.Svc.Authorize(ch, security.AllowExtend); !still {
+				fail("after a link extension the parent key is no longer authorized for the same extension")
 				return
 			}
 		}
